@@ -154,20 +154,6 @@ public:
         TransportErrorInfo{TransportError::Config, "already running"});
     }
 
-    // Reopen the command queue (a prior stop()->shutdownDrain() set this true to
-    // reject post-teardown enqueues — see DD-5). A fresh _eventFd is created
-    // below, so the queue accepts commands again for this run.
-    // LIFECYCLE CONTRACT: start()/stop() are not concurrent with each other or
-    // with enqueue() (the _running CAS gates the lifecycle; callers do not
-    // enqueue during start/restart). So the brief interval between this reset
-    // (_cmdsClosed=false) and the _eventFd recreation below — where the queue is
-    // open but _eventFd is still -1 from the prior shutdownDrain — is not
-    // reachable by a concurrent enqueuer.
-    {
-      std::lock_guard<std::mutex> g(_cmdMutex);
-      _cmdsClosed = false;
-    }
-
     if (!initTls())
     {
       _running.store(false);
@@ -184,15 +170,29 @@ public:
       return StartResult::err(lastError());
     }
 
-    _eventFd = ::eventfd(0, EFD_NONBLOCK | EFD_CLOEXEC);
-    if (_eventFd < 0)
+    // Reopen the command queue (a prior stop()->shutdownDrain() set _cmdsClosed to
+    // reject post-teardown enqueues — see DD-5) and publish the fresh _eventFd in ONE
+    // _cmdMutex critical section. The application does not enqueue during
+    // start()/restart, but the engine's own TimerService does: shutdownDrain() does
+    // not cancel the safety-net timers of the sessions it closes, so a timer armed
+    // before stop() may expire while start() runs and its handler calls enqueue() on
+    // the TimerService thread. Until this section the queue stays closed (such a
+    // stale close is refused); afterwards enqueue() sees the queue open together with
+    // a valid descriptor, and its read of _eventFd is ordered with this write.
+    const int efd = ::eventfd(0, EFD_NONBLOCK | EFD_CLOEXEC);
+    if (efd < 0)
     {
       setLastFatal(IoResult::failure(TransportError::Config, "eventfd: " + lastErr(), errno));
       err(TransportError::Config, "eventfd: " + lastErr());
       cleanupStartFail();
       return StartResult::err(lastError());
     }
-    addEpoll(_eventFd, EPOLLIN);
+    {
+      std::lock_guard<std::mutex> g(_cmdMutex);
+      _eventFd = efd;
+      _cmdsClosed = false;
+    }
+    addEpoll(efd, EPOLLIN);
 
     _timerFd = ::timerfd_create(CLOCK_MONOTONIC, TFD_NONBLOCK | TFD_CLOEXEC);
     if (_timerFd < 0)
@@ -666,9 +666,10 @@ private:
   }
 
   // Start-failure cleanup. Runs on the caller's thread DURING start(), BEFORE
-  // the I/O loop thread is launched, so it is single-threaded w.r.t. the engine
-  // and the _eventFd close here cannot race enqueue() — no _cmdMutex needed
-  // (unlike shutdownDrain's close, which races live enqueuers). DD-6.
+  // the I/O loop thread is launched. The application does not enqueue then, but a
+  // stale TimerService handler (a safety-net timer armed before a previous stop())
+  // may: the _eventFd close is therefore taken under _cmdMutex, like
+  // shutdownDrain's. DD-6.
   void cleanupStartFail()
   {
     if (_timerFd >= 0)
@@ -676,10 +677,14 @@ private:
       ::close(_timerFd);
       _timerFd = -1;
     }
-    if (_eventFd >= 0)
     {
-      ::close(_eventFd);
-      _eventFd = -1;
+      // under _cmdMutex: a stale TimerService handler may be inside enqueue()
+      std::lock_guard<std::mutex> g(_cmdMutex);
+      if (_eventFd >= 0)
+      {
+        ::close(_eventFd);
+        _eventFd = -1;
+      }
     }
     if (_epollFd >= 0)
     {
